@@ -174,7 +174,7 @@ Definition exx_env : json :=
          JObj [($"name", JStr $"E");
                ($"variables", JObj [($"A", JStr $"{{Param.Out}}")]);
                ($"script",
-                JObj [($"actions", JObj [($"onEnter", JObj [($"command", JStr $"{{Env.File.f}}"); ($"timeout", JDec 305 (-1))])]);
+                JObj [($"actions", JObj [($"onEnter", JObj [($"command", JStr $"{{Env.File.f}}"); ($"timeout", JDec 300 (-1))])]);
                       ($"embeddedFiles", JArr [JObj [($"name", JStr $"f"); ($"type", JStr $"TEXT"); ($"data", JStr $"x")]])])])].
 
 Example C17_roundtrip_env_template_nonvacuous :
